@@ -53,8 +53,11 @@ def main():
                 r["tests_pass_with_patch"] = "259 passed; 0 failed" in out_t
                 demo = os.path.join(wt, "_out", "demo%d.sh" % n)
                 if os.path.exists(demo):
+                    # some demos use the already built binary: build before each run
+                    sh("cargo build --offline -q 2>/dev/null", 900, cwd=wt)
                     rc1, _ = sh("bash %s" % demo, 900, cwd=wt)
                     sh("git checkout -- src", 60, cwd=wt)
+                    sh("cargo build --offline -q 2>/dev/null", 900, cwd=wt)
                     rc0, _ = sh("bash %s" % demo, 900, cwd=wt)
                     r["demo_with_patch"] = rc1
                     r["demo_without_patch"] = rc0
